@@ -752,3 +752,46 @@ def _stores_of_field(ctx, fname):
                     i = rv["fnames"].index(fname)
                     vals.append(strip_ver(show(se.operand(rv["fields"][i]))))
     return vals
+
+
+@rule("FLAGS-SLICE", ["C05", "C07"], floor=1)
+def flags_slice(ctx):
+    """parse_expr, piece and parse_terminal index element 0 of the flags slice they are given (audited sites of
+    PANIC-INVENTORY: "created with vec![x] by every caller"): every call site of the three hands over a vector or
+    array literal with at least one element, or the caller's own flags parameter when the caller is one of the
+    three (so the claim holds by induction over the call chain)."""
+    fns = ["re_compiler::ReCompiler::parse_expr", "re_compiler::ReCompiler::piece", "re_compiler::ReCompiler::parse_terminal"]
+    takes = [f for f in fns if ctx.body(f) is not None and ctx.body(f).argc >= 2 and "u32" in strip_lt(ctx.body(f).locals[2]["ty"])]
+    out = []
+    seen = {}
+    callers = {}
+    for f in takes:
+        for caller, bb in ctx.cg.sites.get(f, []):
+            if not caller.blocks[bb].get("cleanup"):
+                callers.setdefault(caller.path, caller)
+    for path, caller in sorted(callers.items()):
+        ctx.body(path)
+        for p in ctx.walk(caller).paths:
+            for e in p.effects:
+                if e[0] != "call":
+                    continue
+                f = next((x for x in takes if e[1] == x or x.endswith("::" + e[1]) or e[1].endswith(x.split("::", 1)[1])), None)
+                if f is None or len(e[2]) < 2:
+                    continue
+                v = strip_ver(render(e[2][1]))
+                lit = re.match(r"^(?:vec!|array)\[[^\]]+\]$", v) is not None
+                own = v == "a2" and path in takes
+                k = "%s<-%s" % (f.split("::")[-1], path.split("::")[-1])
+                good, msg = seen.get(k, (True, ""))
+                if not (lit or own):
+                    good, msg = False, "%s is called with the flags %s: it reads element 0, which exists only for a non-empty literal or the caller's own (checked) parameter" % (f.split("::")[-1], v[:60])
+                seen[k] = (good, msg)
+    for k, (good, msg) in sorted(seen.items()):
+        i_ = ok("site|" + k) if good else bad("site|" + k, msg, None)
+        i_.optional = True  # a call site that is gone indexes nothing; every site that exists is listed here
+        out.append(i_)
+    if not takes:
+        # the flags slice is gone (the context is an enum or a bool): nothing is indexed
+        i_ = ok("no-flags-slice")
+        out.append(i_)
+    return out
